@@ -14,7 +14,7 @@ class Socket(base_socket.BaseSocket):
         super().__init__(server, sid)
         # of the threads that race to close the socket only one may do it
         self._close_lock = threading.Lock()
-        # likewise, only one WebSocket at a time may attempt the upgrade
+        # likewise, only one WebSocket may complete the upgrade
         self._upgrade_lock = threading.Lock()
 
     def poll(self):
@@ -182,13 +182,6 @@ class Socket(base_socket.BaseSocket):
 
         if self.connected:
             # the socket was already connected, so this is an upgrade
-            if not self._upgrade_lock.acquire(blocking=False):
-                # another WebSocket is in the middle of the handshake (or
-                # has completed it): only one can carry the session
-                self.server.logger.info(
-                    '%s: Refused websocket upgrade, another one is in '
-                    'progress', self.sid)
-                return []
             self.upgrading = True  # hold packet sends during the upgrade
 
             try:
@@ -206,20 +199,23 @@ class Socket(base_socket.BaseSocket):
                 pkt = websocket_wait()
                 decoded_pkt = packet.Packet(encoded_packet=pkt)
                 if decoded_pkt.packet_type != packet.UPGRADE:
-                    self.upgraded = False
                     self.server.logger.info(
                         ('%s: Failed websocket upgrade, expected UPGRADE '
                          'packet, received %s instead.'),
                         self.sid, pkt)
+                    return []
+                if not self._upgrade_lock.acquire(blocking=False):
+                    # another WebSocket has completed the handshake in the
+                    # meantime: only one can carry the session
+                    self.server.logger.info(
+                        '%s: Failed websocket upgrade, the session has '
+                        'been upgraded on another connection', self.sid)
                     return []
                 self.upgraded = True
             finally:
                 # however the handshake ends (including an oversize or
                 # undecodable frame or a closed socket), resume polling
                 self.upgrading = False
-                if not self.upgraded:
-                    # a failed attempt does not stand in the way of the next
-                    self._upgrade_lock.release()
         else:
             self.connected = True
             self.upgraded = True
